@@ -2,6 +2,7 @@ import XModel.Parse
 import XModel.ManagerC11
 import XModel.Acyclic
 import XModel.ManagerLoad
+import XModel.ParseBridge
 /-!
 # C11 — printed expressions rebuild themselves
 `C11_roundtrip_partial`: the language of the theorem is refs with string / integer keys, integer
@@ -14,16 +15,34 @@ every binary and unary operator, and calls with positional arguments followed by
 the correspondence run and the eval oracle only.
 
 **Which tree / what has no formal content.**  The model transcribes `/repo` as it stands now (pinned commit plus the `fix:`
-commits: the repaired `__repr__`, and `copy_expr_from` rebinding the namespace instead of replacing text).  There is no
-translation between `Parse.Expr` (the printed language: calls, builtins, floats) and the manager model's expressions
-(lit / ref / bin / un over ints): "dump text → parse → load" is not composed in Lean, the two halves meet in the
-correspondence run only.  `load` never errors in the model because its pairs are already structure; the real `load` raises
-on text that does not evaluate — a model artefact, not a claim.  The bisimulation of a loaded dump with the original over
+commits: the repaired `__repr__`, and `copy_expr_from` rebinding the namespace instead of replacing text).
+
+**The bridge between the two languages** (`XModel/ParseBridge.lean`).  `Parse.Expr` is the printed language (calls,
+builtins, floats); the manager model's expressions are `Push.Expr` (lit / ref / bin / un over ints).  The bridge
+translates the MANAGER-MODEL FRAGMENT both ways: `ParseBridge.ofManager` / `pathToParse` (how a definition and its
+target print: `d['c']`, `e['q1'].l`, `((-3) * d['a'])`) and the partial inverse `ParseBridge.toManager` / `refToPath`.
+The fragment is the decidable predicate `ParseBridge.Printable`: integer literals (negative ones included), refs
+that start with a container label (string / integer keys, attributes), the five binary operators `+ - * // %` and the
+two unary operators `- +` that `Manager.pyBin` / `pyUn` evaluate, and no unary operator directly on a literal (the
+text `(-3)` IS the literal).  On that fragment "dump text → parse → translate → load" is composed in Lean:
+`C11_text_bridge_roundtrip`, `C11_text_same_value_and_dependencies`, `C11_load_text_is_load`,
+`C11_load_dump_through_text`; `C11_printable_along_histories` shows that the fragment is closed under the manager's
+API.  What stays on the `Parse` side only, with no manager-model counterpart: calls, builtins, keyword arguments, float
+literals, the other Python operators (`/`, `**`, `~`, comparisons …) — for those the round trip is textual
+(`C11_roundtrip_partial`) and "same value" is covered by the correspondence run only.  What stays on the manager side
+only: the literals `nan` / `None` / containers (an in-place operator on a location holding NaN attaches one; its text
+`nan` reads back as a NAME) and the model's non-ref task ids.  "For sufficiently large fuel" (`Parse.Ev`) is inherited
+from the parser's round-trip theorem; no explicit fuel bound is proved (the examples read their text with fuel 8).
+`Manager.load` never errors in the model because its pairs are already structure; the real `load` raises
+on text that does not evaluate — a model artefact, not a claim.  `ParseBridge.loadText` returns `none` for text
+outside the fragment (the real `load` would raise at that line after having loaded the earlier ones; that partial
+effect is not modelled).  The bisimulation of a loaded dump with the original over
 whole histories is `C03_fresh_manager_bisimilar` (in C03.lean).
 
-`C11_load_dump_reacts_identically` is the second sentence of the property on the manager model (pairs already
-parsed — the textual half is the round trip above): the dump of a manager, loaded into a fresh manager over the same
-containers, gives the same definitions, and every later assignment to a plain location (C01's scope) ends with the
+`C11_load_dump_reacts_identically` is the second sentence of the property on the manager model with pairs already
+parsed; `C11_load_dump_through_text` is the same sentence with the dump written as text and read back (definitions
+in the bridge's fragment): the dump of a manager, loaded into a fresh manager over the same containers, gives the same
+definitions, and every later assignment to a plain location (C01's scope) ends with the
 same container contents and definitions on both managers, whatever legal schedules the two use.
 -/
 namespace Properties.C11
@@ -113,9 +132,103 @@ example : (setValue id sL da (.int 5)).1.store = (setValue id sE da (.int 5)).1.
 end example_
 
 
+/-! ### the bridge: dump as TEXT, parse, translate, load (XModel/ParseBridge.lean) -/
+
+/-- **the textual and the structural half meet**: for every expression `e` of the manager model in the bridge's fragment (`Printable`: integer literals, rooted refs, `+ - * // %`, unary `- +` not directly on a literal), its printed form `ofManager e` is in the language of the round-trip theorem (`WFarg`); the parser gives the printed form back from its tokens; translating the printed form back gives `e`; hence reading the tokens (parse everything, translate) gives `e` — for all sufficiently large fuel -/
+theorem C11_text_bridge_roundtrip (e : Push.Expr) (h : ParseBridge.Printable e) :
+    WFarg (ParseBridge.ofManager e) ∧
+      Ev (fun n => parseExpr n (print (ParseBridge.ofManager e))) (ParseBridge.ofManager e, []) ∧
+      ParseBridge.toManager (ParseBridge.ofManager e) = some e ∧
+      Ev (fun n => ParseBridge.readExpr n (print (ParseBridge.ofManager e))) e :=
+  ⟨ParseBridge.wfarg_ofManager e h, parse_print _ (ParseBridge.wfarg_ofManager e h),
+   ParseBridge.toManager_ofManager e h, ParseBridge.read_print e h⟩
+
+/-- the same for the left-hand sides of a dump: the printed form of a ref that starts with a container label (`d['a']`, `v['a'][-1]`, `e['q1'].l`) reads back as the ref -/
+theorem C11_text_bridge_roundtrip_ref (p : Manager.Path) (h : Manager.rooted p = true) :
+    WFarg (ParseBridge.pathToParse p) ∧ ParseBridge.refToPath (ParseBridge.pathToParse p) = some p ∧
+      Ev (fun n => ParseBridge.readPath n (print (ParseBridge.pathToParse p))) p :=
+  ⟨ParseBridge.wfarg_pathToParse p, ParseBridge.refToPath_pathToParse p h, ParseBridge.readPath_print p h⟩
+
+/-- the two translations are mutually inverse: whatever `toManager` reads from a printed expression is printed as exactly that expression, and (for text the printer can produce) it is in the fragment -/
+theorem C11_text_bridge_inverse (x : Expr) (e : Push.Expr) (h : ParseBridge.toManager x = some e) :
+    ParseBridge.ofManager e = x ∧ (WFarg x → ParseBridge.Printable e) :=
+  ⟨ParseBridge.ofManager_toManager x e h, fun hw => (ParseBridge.printable_of_toManager x e hw h).1⟩
+
+/-- **"an equal expression with the same value and dependencies"**: the expression read back from the text has, in every manager state, the value of the original (or raises the same error), and `ExprTask` declares the same dependencies for it — because it IS the original -/
+theorem C11_text_same_value_and_dependencies (s : Manager.MState) (e : Push.Expr) (h : ParseBridge.Printable e) :
+    Ev (fun n => (ParseBridge.readExpr n (print (ParseBridge.ofManager e))).map
+        (fun e' => (Manager.evalE s e', Manager.exprDeps e'))) (Manager.evalE s e, Manager.exprDeps e) :=
+  ParseBridge.read_print_value_deps s e h
+
+/-- **loading the text IS loading the pairs**: for ANY pairs in the fragment (repeated targets, targets already defined), any manager and both values of `overwrite`, reading the printed lines and loading them gives exactly what `Manager.load` gives on the pairs — state and outcome; so `C11_load_is_the_fold`, `C11_overwrite_last_pair_wins`, `C11_no_overwrite_first_wins` … hold for text -/
+theorem C11_load_text_is_load (s0 : Manager.MState) (ow : Bool) (pairs : List (Manager.Path × Push.Expr))
+    (h : ParseBridge.PairsPrintable pairs) :
+    Ev (fun n => ParseBridge.loadText n s0 ow (ParseBridge.textOf pairs)) (Manager.load s0 ow pairs) :=
+  ParseBridge.loadText_textOf s0 ow pairs h
+
+/-- the text of a dump determines its definitions: two lists of pairs in the fragment with the same printed lines are equal -/
+theorem C11_dump_text_determines_definitions (a b : List (Manager.Path × Push.Expr))
+    (ha : ParseBridge.PairsPrintable a) (hb : ParseBridge.PairsPrintable b)
+    (h : ParseBridge.textOf a = ParseBridge.textOf b) : a = b :=
+  ParseBridge.textOf_injective a b ha hb h
+
+open Manager in
+/-- **C11's second sentence THROUGH TEXT**: write the dump of `s` as text (`dumpText`: printed target and printed expression of every expression task, in table order), read it (parse both sides of every line, translate) and load it into a fresh manager over the same containers.  If the definitions of `s` are in the bridge's fragment (`DumpPrintable`, decidable), then for all sufficiently large fuel the text is read completely and the load raises nothing; the new manager has the same definitions and containers and satisfies the index invariant; and every later assignment to a plain location (C01's scope) ends with the same container contents and definitions on both managers, whatever legal schedules the two use -/
+theorem C11_load_dump_through_text (s : MState) (ow : Bool) (hi : MInv s) (hfz : s.frozen = false)
+    (hex : ExprDefs s.defs) (hc : Consistent s) (hp : ParseBridge.DumpPrintable s) :
+    ∃ s', Ev (fun n => ParseBridge.loadText n (freshOver s) ow (ParseBridge.dumpText s)) (s', none) ∧
+      s'.defs = s.defs ∧ s'.store = s.store ∧ MInv s' ∧
+      ∀ (sched1 sched2 : Sched) (p : Manager.Path) (v : Store.Val), lookDef s.defs p = none → Scope s p →
+        ValidSched (gOf s.idx) (findTaskids s.idx (chainR p)) (sched1 (findTaskids s.idx (chainR p))) →
+        ValidSched (gOf s'.idx) (findTaskids s'.idx (chainR p)) (sched2 (findTaskids s'.idx (chainR p))) →
+        ∀ s1, setValue sched1 s p v = (s1, none) →
+          ∃ s2, setValue sched2 s' p v = (s2, none) ∧ s2.store = s1.store ∧ s2.defs = s1.defs :=
+  ParseBridge.load_dump_through_text s ow hi hfz hex hc hp
+
+/-- **the fragment is closed under the API**: start from definitions in the fragment (e.g. none) and make any calls whose expression arguments are in the fragment (`histPrintableB`, checked call by call in the state the call is made in: printable expressions at rooted targets for `set_value(ref, expr)`, `register`, `load`; for an in-place operator an operator of the table, a printable operand and — when the location holds a plain value that becomes a literal of the new definition — an integer value); then the dump of the resulting manager is in the fragment, so `C11_load_dump_through_text` applies to it -/
+theorem C11_printable_along_histories (sched : Manager.Sched) (cs : List Manager.Call) (s : Manager.MState)
+    (hs : ParseBridge.DumpPrintable s) (h : ParseBridge.histPrintableB sched s cs = true) :
+    ParseBridge.DumpPrintable (Manager.applyAll sched s cs) :=
+  ParseBridge.history_printable sched cs s hs h
+
+/-! non-vacuity (`ParseBridge.Example`): containers `d`, `v`, `e`; definitions `d['c'] = ((-3) * d['a'])` (negative literal on
+    the left) and `e['q1'].l = (v['a'][2] + (-e['q1'].k))` (nested item / attribute paths) -/
+section example_text
+open ParseBridge ParseBridge.Example
+/-- the dump as token lists -/
+example : dumpText sX =
+    [([.name "d", .lbr, .str "c", .rbr],
+      [.lpar, .lpar, .op "-", .num 3, .rpar, .op "*", .name "d", .lbr, .str "a", .rbr, .rpar]),
+     ([.name "e", .lbr, .str "q1", .rbr, .dot, .name "l"],
+      [.lpar, .name "v", .lbr, .str "a", .rbr, .lbr, .num 2, .rbr, .op "+",
+         .lpar, .op "-", .name "e", .lbr, .str "q1", .rbr, .dot, .name "k", .rpar, .rpar])] := dumpText_sX
+/-- every hypothesis of `C11_load_dump_through_text` holds for it, and the theorem applies -/
+example : ∃ s', Ev (fun n => loadText n (Manager.freshOver sX) true (dumpText sX)) (s', none) ∧ s'.defs = sX.defs := by
+  obtain ⟨s', h1, h2, _⟩ := C11_load_dump_through_text sX true sX_inv rfl sX_exprs sX_consistent sX_printable
+  exact ⟨s', h1, h2⟩
+/-- concretely, with fuel 8: the text reads back as the dump, loads without error into the fresh manager `sT`, and `d['a'] = 7` has the same effect on both -/
+example : readLines 8 textX = some (Manager.dump sX) ∧
+    loadText 8 (Manager.freshOver sX) true textX = some (Manager.load (Manager.freshOver sX) true (Manager.dump sX)) ∧
+    sT.defs = sX.defs ∧
+    (Manager.setValue id sT da (.int 7)).1.store = (Manager.setValue id sX da (.int 7)).1.store :=
+  ⟨rfl, rfl, rfl, rfl⟩
+/-- the bridge theorems on the two definitions -/
+example : Printable defC ∧ Printable defL := by decide
+example : Ev (fun n => readExpr n (print (ofManager defC))) defC := (C11_text_bridge_roundtrip defC (by decide)).2.2.2
+/-- the history that built `sX` satisfies the hypothesis of `C11_printable_along_histories` -/
+example : histPrintableB id s0 hist = true := by decide +kernel
+/-- outside the fragment: the node `Neg(3)` prints as `(-3)`, which reads back as the literal; a `nan` literal prints as a name -/
+example : ¬ Printable (.un "Neg" (.lit (.int 3))) ∧ readExpr 8 [.lpar, .op "-", .num 3, .rpar] = some (.lit (.int (-3))) :=
+  ⟨by decide, rfl⟩
+example : ¬ Printable (.lit .nan) ∧ toManager (ofManager (.lit .nan)) = some (.ref [.item (.str "nan")]) := ⟨by decide, rfl⟩
+end example_text
+
+
 /-! ### `load` for arbitrary dumps, `copy_expr_from` with re-bound labels (XModel/ManagerLoad.lean)
 
-The textual half (printing and re-parsing each pair) is `Parse.parse_print`; here pairs are structure.  `copy_expr_from` takes its
+The textual half (printing and re-parsing each pair) is `Parse.parse_print`, connected to the structural half by the bridge
+below (`C11_load_text_is_load`: for pairs in the fragment, loading the text IS loading the pairs, so every statement of this
+section holds for text read back); here pairs are structure.  `copy_expr_from` takes its
 pairs in dependency order in the code and in table order here: the copied targets are distinct, so every per-location
 statement is independent of that order (`Manager.lookDef_loadSpec_order_indep`). -/
 
